@@ -29,6 +29,8 @@ func runC10(c *core.Ctx, r *core.Reporter) {
 	c.BuildSSA()
 	c10inval(c, r)
 	c10guard(c, r)
+	// call-next-method and next-method-p walk the :around methods through the same location objects as whoppers
+	c11walk(c, r, "C10.walk")
 }
 
 // fromMethodsLookup: v derives from a lookup in Aux.methods.
